@@ -128,10 +128,12 @@ package ggql
 //@   ensures[only-added] forall k string :: fl.dict[k] == old(fl.dict[k]) || (exists i int :: 0 <= i && i < len(fds) && fds[i].N == k && fl.dict[k] == fds[i])
 //@   ensures[same-map] old(fl.dict) != nil ==> fl.dict == old(fl.dict)
 //@   ensures[map-made] old(fl.dict) == nil ==> fl.dict != nil && fresh(fl.dict)
-//@   assigns fresh, fl.dict, fl.dict[], fl.list
+//@   ensures[list-array] samearray(fl.list, old(fl.list)) || fresh(fl.list)
+//@   assigns fresh, fl.dict, fl.dict[], fl.list, fl.list[]
 //@   loop 0: invariant[bounds] rangeindex+1 <= len(fds)
 //@           invariant[dict] fl.dict != nil && (old(fl.dict) != nil ==> fl.dict == old(fl.dict)) && (old(fl.dict) == nil ==> fresh(fl.dict))
 //@           invariant[len] len(fl.list) == old(len(fl.list)) + rangeindex + 1
+//@           invariant[list-array] samearray(fl.list, old(fl.list)) || fresh(fl.list)
 //@           invariant[added] forall i int :: 0 <= i && i <= rangeindex ==> fl.list[old(len(fl.list)) + i] == fds[i] && fl.dict[fds[i].N] == fds[i]
 //@           invariant[prefix] forall i int :: 0 <= i && i < old(len(fl.list)) ==> fl.list[i] == old(fl.list[i])
 //@           invariant[unique] forall i int :: 0 <= i && i <= rangeindex ==> old(fl.dict[fds[i].N]) == nil && (forall j int :: 0 <= j && j < i ==> fds[i].N != fds[j].N)
@@ -161,10 +163,12 @@ package ggql
 //@   ensures[prefix-kept] forall i int :: 0 <= i && i < old(len(al.list)) ==> al.list[i] == old(al.list[i])
 //@   ensures[never-replaced] forall k string :: old(al.dict[k]) != nil ==> al.dict[k] == old(al.dict[k])
 //@   ensures[only-added] forall k string :: al.dict[k] == old(al.dict[k]) || (exists i int :: 0 <= i && i < len(fds) && fds[i].N == k && al.dict[k] == fds[i])
-//@   assigns fresh, al.dict, al.dict[], al.list
+//@   ensures[list-array] samearray(al.list, old(al.list)) || fresh(al.list)
+//@   assigns fresh, al.dict, al.dict[], al.list, al.list[]
 //@   loop 0: invariant[bounds] rangeindex+1 <= len(fds)
 //@           invariant[dict] al.dict != nil
 //@           invariant[len] len(al.list) == old(len(al.list)) + rangeindex + 1
+//@           invariant[list-array] samearray(al.list, old(al.list)) || fresh(al.list)
 //@           invariant[added] forall i int :: 0 <= i && i <= rangeindex ==> al.list[old(len(al.list)) + i] == fds[i] && al.dict[fds[i].N] == fds[i]
 //@           invariant[prefix] forall i int :: 0 <= i && i < old(len(al.list)) ==> al.list[i] == old(al.list[i])
 //@           invariant[unique] forall i int :: 0 <= i && i <= rangeindex ==> old(al.dict[fds[i].N]) == nil && (forall j int :: 0 <= j && j < i ==> fds[i].N != fds[j].N)
@@ -194,10 +198,12 @@ package ggql
 //@   ensures[prefix-kept] forall i int :: 0 <= i && i < old(len(il.list)) ==> il.list[i] == old(il.list[i])
 //@   ensures[never-replaced] forall k string :: old(il.dict[k]) != nil ==> il.dict[k] == old(il.dict[k])
 //@   ensures[only-added] forall k string :: il.dict[k] == old(il.dict[k]) || (exists i int :: 0 <= i && i < len(fds) && fds[i].N == k && il.dict[k] == fds[i])
-//@   assigns fresh, il.dict, il.dict[], il.list
+//@   ensures[list-array] samearray(il.list, old(il.list)) || fresh(il.list)
+//@   assigns fresh, il.dict, il.dict[], il.list, il.list[]
 //@   loop 0: invariant[bounds] rangeindex+1 <= len(fds)
 //@           invariant[dict] il.dict != nil
 //@           invariant[len] len(il.list) == old(len(il.list)) + rangeindex + 1
+//@           invariant[list-array] samearray(il.list, old(il.list)) || fresh(il.list)
 //@           invariant[added] forall i int :: 0 <= i && i <= rangeindex ==> il.list[old(len(il.list)) + i] == fds[i] && il.dict[fds[i].N] == fds[i]
 //@           invariant[prefix] forall i int :: 0 <= i && i < old(len(il.list)) ==> il.list[i] == old(il.list[i])
 //@           invariant[unique] forall i int :: 0 <= i && i <= rangeindex ==> old(il.dict[fds[i].N]) == nil && (forall j int :: 0 <= j && j < i ==> fds[i].N != fds[j].N)
@@ -227,10 +233,14 @@ package ggql
 //@   ensures[prefix-kept] forall i int :: 0 <= i && i < old(len(el.list)) ==> el.list[i] == old(el.list[i])
 //@   ensures[never-replaced] forall k string :: old(el.dict[k]) != nil ==> el.dict[k] == old(el.dict[k])
 //@   ensures[only-added] forall k string :: el.dict[k] == old(el.dict[k]) || (exists i int :: 0 <= i && i < len(evs) && evs[i].Value == k && el.dict[k] == evs[i])
-//@   assigns fresh, el.dict, el.dict[], el.list
+//@   ensures[same-map] old(el.dict) != nil ==> el.dict == old(el.dict)
+//@   ensures[map-made] old(el.dict) == nil ==> el.dict != nil && fresh(el.dict)
+//@   ensures[list-array] samearray(el.list, old(el.list)) || fresh(el.list)
+//@   assigns fresh, el.dict, el.dict[], el.list, el.list[]
 //@   loop 0: invariant[bounds] rangeindex+1 <= len(evs)
-//@           invariant[dict] el.dict != nil
+//@           invariant[dict] el.dict != nil && (old(el.dict) != nil ==> el.dict == old(el.dict)) && (old(el.dict) == nil ==> fresh(el.dict))
 //@           invariant[len] len(el.list) == old(len(el.list)) + rangeindex + 1
+//@           invariant[list-array] samearray(el.list, old(el.list)) || fresh(el.list)
 //@           invariant[added] forall i int :: 0 <= i && i <= rangeindex ==> el.list[old(len(el.list)) + i] == evs[i] && el.dict[evs[i].Value] == evs[i]
 //@           invariant[prefix] forall i int :: 0 <= i && i < old(len(el.list)) ==> el.list[i] == old(el.list[i])
 //@           invariant[unique] forall i int :: 0 <= i && i <= rangeindex ==> old(el.dict[evs[i].Value]) == nil && (forall j int :: 0 <= j && j < i ==> evs[i].Value != evs[j].Value)
